@@ -224,7 +224,7 @@ func enumEdge(yield func(Case) bool) {
 
 var shapes = []string{"div", "div", "div", "flat", "template"}
 
-var shortNames = map[int]string{1: "components/KOne.vuego", 2: "components/KTwo.vuego", 3: "components/KThree.vuego"}
+var shortNames = map[int]string{1: "components/KOne.vuego", 2: "components/KTwo.vuego", 3: "components/KThree.vuego", 4: "components/KFour.vuego"}
 
 func genLeafInfo(t *rapid.T, idx int, elem string, short bool) (compInfo, []useSpec) {
 	ci := compInfo{idx: idx, file: fmt.Sprintf("k%d.vuego", idx), elem: elem, slots: map[string]slotInfo{}, multi: map[string]bool{}}
@@ -389,7 +389,7 @@ func genCase(t *rapid.T, ex exclusions, rec *ev.Rec) Case {
 		insts = append(insts, b.instance(ci, i, inLoop, plans, ex, rec, hook))
 	}
 	c.Page = page(b, insts)
-	if rapid.IntRange(0, 5).Draw(t, "layout") == 0 {
+	if rapid.IntRange(0, 3).Draw(t, "layout") == 0 {
 		// layouts/base.vuego wraps the page and contains a component instance of its own
 		ci := avail[rapid.IntRange(0, len(avail)-1).Draw(t, "layout-which")]
 		plans := genPlans(t, ci, true)
@@ -424,6 +424,9 @@ func genCase(t *rapid.T, ex exclusions, rec *ev.Rec) Case {
 		if rapid.Bool().Draw(t, "layout-inst-first") {
 			k := c.Layout[0].Kids
 			k[1], k[2] = k[2], k[1]
+		}
+		if rapid.Bool().Draw(t, "handover") {
+			b.handover(&c, elem, genHandSpec(t, elem), ex, rec)
 		}
 	}
 	c.rename(genNames(t))
